@@ -19,7 +19,7 @@ RULE = ("ipcp/lcp/v6: ProcessConfReq called directly; every option list of lengt
         "Input(ConfReq) with serialized structured lists, random bytes, truncations, bad length bytes, trailing byte; "
         "emitted packets decoded by an independent decoder. sess: real SessionState (initPPP, extractIPFromAttributes, "
         "startNCP, onIPCPUp) with AAA address none / usable / 0.0.0.0 / IPv6 and random histories of subscriber "
-        "Configure-Requests and Configure-Acks; session address and ipcpOpen after every event. Non-trivial: at least "
+        "Configure-Requests and Configure-Ack/Nak/Reject answers to the BNG's own request (verbatim and forged); session address and ipcpOpen after every event. Non-trivial: at least "
         "one option classified (direct), a packet emitted (fsm), IPCP reached Opened (sess). Distinct: by case text.")
 TRUSTED = ["bytes are modelled as N; the harness feeds 0..255 only",
            "the random IPv6CP Nak suggestion is projected to 'an 8-byte identifier different from the local one'",
@@ -241,8 +241,15 @@ def gen_cases(rng, tier, budget):
         evs = []
         for _ in range(rng.choice([1, 2, 3, 4, 6, 10])):
             r = rng.random()
-            if r < 0.35:
+            if r < 0.3:
                 evs.append("k")
+            elif r < 0.42:
+                # the subscriber's answer to OUR request: tries to talk us into other values
+                w = wire(rng.choice([[opt(3, "06060606")], [opt(129, "01010101")], [opt(131, "02020202"), opt(3, "0a000006")],
+                                     [opt(129, "00000000")], [opt(129, "0101")], [], [opt(3, assigned)]]))
+                if rng.random() < 0.15:
+                    w = mutate_wire(rng, w)
+                evs.append(rng.choice("anj") + w)
             else:
                 w = wire(rng.choice(reqs))
                 if rng.random() < 0.1:
@@ -287,9 +294,29 @@ def to4(tok):
     return None
 
 
-def monitor(case, impl):
-    """The property itself, evaluated on the implementation's output.  Returns a text or None."""
+def monitor_all(case, impl):
+    """The property itself, evaluated on the implementation's output: list of (text, finding class or None)."""
+    out = []
     try:
+        _monitor(case, impl, out)
+    except Exception:  # unparseable output is a glue problem, not a property violation
+        pass
+    return out
+
+
+def monitor(case, impl):
+    v = monitor_all(case, impl)
+    return v[0][0] if v else None
+
+
+class _Found(Exception):
+    pass
+
+
+def _monitor(case, impl, out):
+    def hit(text, cls=None):
+        out.append((text, cls))
+    if True:
         f = case.split()
         if impl.startswith(("panic", "hang")):
             return "implementation " + impl[:80]
@@ -300,42 +327,42 @@ def monitor(case, impl):
                 req = parse_opts(rq)
                 for t, d in ack:
                     if t == 3 and usable and d != asg:
-                        return "IPCP acknowledged address %s while %s is assigned" % (d, asg)
+                        hit("IPCP acknowledged address %s while %s is assigned" % (d, asg))
                     if t == 3 and d == "00000000":
-                        return "IPCP acknowledged 0.0.0.0"
+                        hit("IPCP acknowledged 0.0.0.0")
                     if t not in (3, 129, 131) or len(d) != 8:
-                        return "IPCP acknowledged unimplemented or malformed option %d.%s" % (t, d)
+                        hit("IPCP acknowledged unimplemented or malformed option %d.%s" % (t, d))
                     if (t, d) not in req:
-                        return "IPCP acknowledged an option that was not requested"
+                        hit("IPCP acknowledged an option that was not requested")
                 for t, d in req:
                     if (t not in (3, 129, 131) or len(d) != 8) and (t, d) not in rej:
-                        return "IPCP did not reject unimplemented or malformed option %d.%s" % (t, d[:20])
+                        hit("IPCP did not reject unimplemented or malformed option %d.%s" % (t, d[:20]))
                     if t == 3 and len(d) == 8 and usable and d != asg and (3, asg) not in nak:
-                        return "IPCP did not Nak proposal %s with the assigned address" % d
+                        hit("IPCP did not Nak proposal %s with the assigned address" % d)
         elif f[0] == "lcp":
             magic = int(f[1])
             for rq, (ack, nak, rej) in zip(f[2:], parse_results(impl)):
                 req = parse_opts(rq)
                 for t, d in ack:
                     if t == 5 and magic != 0 and len(d) == 8 and int(d, 16) == magic:
-                        return "LCP acknowledged its own magic number"
+                        hit("LCP acknowledged its own magic number")
                     if t == 3 and not (d[:4] == "c023" or d == "c22305"):
-                        return "LCP acknowledged authentication protocol %s which it does not support" % d
+                        hit("LCP acknowledged authentication protocol %s which it does not support" % d, "auth")
                     if t not in (1, 3, 5):
-                        return "LCP acknowledged unimplemented option %d" % t
+                        hit("LCP acknowledged unimplemented option %d" % t)
                     if (t, d) not in req:
-                        return "LCP acknowledged an option that was not requested"
+                        hit("LCP acknowledged an option that was not requested")
                 for t, d in req:
                     if t not in (1, 3, 5) and (t, d) not in rej:
-                        return "LCP did not reject unimplemented option %d" % t
+                        hit("LCP did not reject unimplemented option %d" % t)
         elif f[0] == "v6":
             local = f[1]
             for rq, (ack, nak, rej) in zip(f[2:], parse_results(impl)):
                 for t, d in ack:
                     if t != 1 or len(d) != 16:
-                        return "IPv6CP acknowledged unimplemented or malformed option %d.%s" % (t, d)
+                        hit("IPv6CP acknowledged unimplemented or malformed option %d.%s" % (t, d))
                     if d == "00" * 8 or d == local:
-                        return "IPv6CP acknowledged interface identifier %s (zero or its own)" % d
+                        hit("IPv6CP acknowledged interface identifier %s (zero or its own)" % d)
         elif f[0] == "fsm":
             acts = impl.split(" ; ")[0].split()
             for a in acts:
@@ -347,48 +374,74 @@ def monitor(case, impl):
                     usable = asg is not None and asg != "00000000"
                     for t, d in os:
                         if t == 3 and ((usable and d != asg) or d == "00000000"):
-                            return "Configure-Ack carries address %s while %s is assigned" % (d, asg)
+                            hit("Configure-Ack carries address %s while %s is assigned" % (d, asg))
                         if t not in (3, 129, 131) or len(d) != 8:
-                            return "Configure-Ack carries unimplemented or malformed option %d.%s" % (t, d)
+                            hit("Configure-Ack carries unimplemented or malformed option %d.%s" % (t, d))
                 elif f[1] == "l":
                     magic = int(f[2])
                     for t, d in os:
                         if t == 5 and magic != 0 and len(d) == 8 and int(d, 16) == magic:
-                            return "LCP Configure-Ack carries its own magic number"
+                            hit("LCP Configure-Ack carries its own magic number")
                         if t == 3 and not (d[:4] == "c023" or d == "c22305"):
-                            return "LCP Configure-Ack carries authentication protocol %s which it does not support" % d
+                            hit("LCP Configure-Ack carries authentication protocol %s which it does not support" % d, "auth")
                         if t not in (1, 3, 5):
-                            return "LCP Configure-Ack carries unimplemented option %d" % t
+                            hit("LCP Configure-Ack carries unimplemented option %d" % t)
                 else:
                     for t, d in os:
                         if t != 1 or len(d) != 16 or d == "00" * 8 or d == f[2]:
-                            return "IPv6CP Configure-Ack carries %d.%s" % (t, d)
+                            hit("IPv6CP Configure-Ack carries %d.%s" % (t, d))
         elif f[0] == "sess":
             parts = impl.split(" | ")
             first = dict(x.split("=", 1) for x in parts[0].split())
             pa = first.get("pa")
             if pa is None or pa in ("nil", "h00000000") or len(pa) != 9:
-                return "startNCP left the session without a usable assigned address (pa=%s)" % pa
+                hit("startNCP left the session without a usable assigned address (pa=%s)" % pa, "aaa")
+                return          # everything after that is a consequence
             for p in parts[1:]:
                 toks = p.split()
                 kv = dict(x.split("=", 1) for x in toks if "=" in x)
                 if kv.get("a") != pa:
-                    return "session address %s differs from the assigned address %s" % (kv.get("a"), pa)
+                    hit("session address %s differs from the assigned address %s" % (kv.get("a"), pa),
+                        "adopt" if kv.get("a") == "nil" else None)
                 for a in toks:
                     if a.startswith("sca:"):
                         for t, d in parse_opts(a.split(":", 2)[2]):
                             if t == 3 and "h" + d != pa:
-                                return "Configure-Ack carries address %s while %s is assigned" % (d, pa)
-    except Exception as e:  # unparseable output is a glue problem, not a property violation
-        return None
-    return None
+                                hit("Configure-Ack carries address %s while %s is assigned" % (d, pa))
+
+
+SIG_OF_CLASS = {"auth": "lcp-acks-chap-with-unsupported-algorithm",
+                "adopt": "ipcp-up-without-address-option-adopts-nil",
+                "aaa": "aaa-unusable-ipv4-leaves-ipcp-unassigned"}
+
+
+def _recorded():
+    """signatures currently listed as known: in KNOWN_FINDINGS.txt (read only)"""
+    import os
+    import re
+    path = os.path.join(os.path.dirname(os.path.dirname(os.path.abspath(__file__))), "KNOWN_FINDINGS.txt")
+    got = set()
+    try:
+        for l in open(path):
+            m = re.match(r"^known: property=C06 signature=(\S+) ", l)
+            if m:
+                got.add(m.group(1))
+    except OSError:
+        pass
+    return got
 
 
 def classify(case, impl, model):
-    v = monitor(case, impl)
-    if v:
-        return "P", v + " (impl=%r model=%r)" % (impl[:200], model[:200])
-    return "G", "implementation and model disagree: impl=%r model=%r" % (impl[:300], model[:300])
+    """P: the implementation's output violates the property in a way that is not one of the recorded
+    findings (a case that matches a recorded finding exactly never gets here: vlib reports it as
+    KNOWN-FINDING).  A case that shows nothing but a recorded finding and differs elsewhere is glue."""
+    vs = monitor_all(case, impl)
+    rec = _recorded()
+    fresh = [t for t, c in vs if c is None or SIG_OF_CLASS[c] not in rec]
+    if fresh:
+        return "P", fresh[0] + " (impl=%r model=%r)" % (impl[:200], model[:200])
+    extra = (" [also shows recorded finding: %s]" % vs[0][0]) if vs else ""
+    return "G", "implementation and model disagree: impl=%r model=%r%s" % (impl[:300], model[:300], extra)
 
 
 def signature(case, impl, models):
